@@ -52,19 +52,19 @@ def gen(rng):
                 r = rng.randrange(16, 32); stmts.append(('def', d, r)); live[d] = r
         elif k < .45 and live:
             d = rng.choice(list(live))
-            stmts.append(('ins', rng.choice(['mov %s, r1', 'ldi %s, 7', 'inc %s', 'cp r2, %s']), 'reg', d, live[d]))
+            stmts.append(('ins', rng.choice(['mov %s, r1', 'ldi %s, 7', 'inc %s', 'cp r2, %s', 'mov r1, %s', 'ld %s, X', 'st Y+, %s', 'sbrc %s, 3', 'ldd %s, Z+2', 'andi %s, 0x0f', 'out 0x3f, %s', 'push %s']), 'reg', d, live[d]))
         elif k < .6 and setval:
             s = rng.choice(list(setval))
-            stmts.append(('ins', rng.choice(['.dw %s', 'ldi r16, %s', '.dw %s + 1']), 'val', s, setval[s]))
+            stmts.append(('ins', rng.choice(['.dw %s', 'ldi r16, %s', '.dw %s + 1', 'ldd r0, Y+(%s & 63)', 'sbi 5, %s & 7', 'ldi r16, low(%s)', '.dw -%s', 'c10use %s', 'cpi r20, (%s) & 0xff']), 'val', s, setval[s]))
         elif k < .68 and equx and equx['Eqx0'][0] in setval:
             var, c = equx['Eqx0']
             stmts.append(('ins', rng.choice(['.dw %s', 'ldi r17, %s', '.dw %s * 2', '.dw %s - 1']), 'val', 'Eqx0', setval[var] + c))
         elif k < .75 and equs:
             e = rng.choice(list(equs))
-            stmts.append(('ins', rng.choice(['.dw %s', 'ldi r17, %s', 'subi r18, %s', '.dw %s * 2']), 'val', e, equs[e]))
+            stmts.append(('ins', rng.choice(['.dw %s', 'ldi r17, %s', 'subi r18, %s', '.dw %s * 2', 'std Z+(%s & 63), r3', 'sbrs r4, %s & 7', 'ldi r17, high(%s + 256)', '.dw ~%s & 0xffff', 'c10use %s', 'adiw r24, %s & 63', 'in r5, %s & 63']), 'val', e, equs[e]))
         elif k < .9:
             l = rng.choice(labs)
-            stmts.append(('ins', rng.choice(['.dw %s', 'rjmp %s', 'ldi r19, low(%s)', 'brne %s']), 'lab', l, None))
+            stmts.append(('ins', rng.choice(['.dw %s', 'rjmp %s', 'ldi r19, low(%s)', 'brne %s', 'ldi r20, high(%s)', '.dw %s + 1', 'rcall %s', 'c10use %s', 'brbs 1, %s']), 'lab', l, None))
         else:
             stmts.append(('ins', 'nop', None, None, None))
     # equ definitions at random positions (forward references allowed), labels at random positions
@@ -105,6 +105,10 @@ def gen(rng):
                 lines.append('  ' + tmpl % case(rng, name)); res.append('  ' + tmpl % ('%d' % val))
             else:
                 lines.append('  ' + tmpl % case(rng, name)); res.append('  ' + tmpl % ('%d' % labaddr[name]))
+    # `c10use X` is `.dw X` through a macro (the symbol travels as a macro argument); the definition stands at the end
+    res = [r.replace('c10use ', '.dw ') for r in res]
+    if any('c10use' in l for l in lines):
+        lines += ['.macro c10use', '  .dw @0', '.endm']; res += ['', '', '']
     # mutants that must fail
     mutants = []
     used = {s[3] for s in stmts if s[0] == 'ins' and s[3]}
@@ -147,6 +151,11 @@ def gen(rng):
         add_clash('.set/.def name clash', '.def %s = r22' % case(rng, s0))
         add_clash('.set/label name clash', '%s:' % case(rng, s0), rng.choice([None, 0]))
     rng.shuffle(mutants)
+    # (after the mutants were derived from the one-item-per-line text)
+    # a label may stand on the line of the instruction that follows it
+    for i in range(len(stmts) - 1):
+        if stmts[i][0] == 'label' and stmts[i + 1][0] == 'ins' and '\n' not in lines[i + 1] and rng.random() < .35:
+            lines[i] = lines[i] + ' ' + lines[i + 1].strip(); lines[i + 1] = ''
     return lines, res, mutants
 
 def run(tier, seed, model_ok):
